@@ -1,8 +1,115 @@
 import Drv.Base
-open Lean Pdt
+import Drv.Reader
+import Drv.Blocks
+import PdtModel.Model.Grid
+open Lean Pdt Pdt.Reader Pdt.Represent Pdt.Blocks Pdt.Grid
 namespace Drv
 
-/-- op handler of the `Grid` layer (stub until the layer is built) -/
-def handleGrid (_op : String) (_j : Json) : Option (Except String Json) := none
+/-- stored value: {"t": text} | {"b": bool} | {"n": float token} | {"i": int} | {"d": iso token} -/
+def gridValOfJson (j : Json) : Except String Val :=
+  match j.getObjVal? "t" with
+  | .ok v => do let s ← v.getStr?; pure (.text s.toList)
+  | .error _ =>
+  match j.getObjVal? "b" with
+  | .ok v => do let b ← v.getBool?; pure (.bool b)
+  | .error _ =>
+  match j.getObjVal? "n" with
+  | .ok v => do let s ← v.getStr?; pure (.num s.toList)
+  | .error _ =>
+  match j.getObjVal? "i" with
+  | .ok v => do let i ← v.getInt?; pure (.int i)
+  | .error _ =>
+  match j.getObjVal? "d" with
+  | .ok v => do let s ← v.getStr?; pure (.dt s.toList)
+  | .error _ => throw "bad value"
+
+def gridColumnOfJson (j : Json) : Except String Column := do
+  let name ← getStr j "name"
+  let unit ← getStr j "unit"
+  let vals ← (← getArr j "values").mapM gridValOfJson
+  pure ⟨name, unit, vals⟩
+
+def gridTableOfJson (j : Json) : Except String TableVal := do
+  let name ← getStr j "name"
+  let dests ← (← getArr j "destinations").mapM (fun d => do let s ← d.getStr?; pure s.toList)
+  let tr ← getBool j "transposed"
+  let cols ← (← getArr j "columns").mapM gridColumnOfJson
+  pure ⟨name, dests, tr, cols⟩
+
+def gridTablesOfJson (j : Json) (k : String) : Except String (List TableVal) := do
+  (← getArr j k).mapM gridTableOfJson
+
+def gridPartName : Part → String
+  | .tableName => "table_name" | .destinations => "destinations" | .columnNames => "column_names"
+  | .units => "units" | .values => "values" | .centeredUnits => "centered_units"
+  | .centeredValues => "centered_values"
+
+def gridTargetToJson (t : Target) : Json := arr [nat t.table, nat t.row, nat t.col, Json.str (gridPartName t.part)]
+
+def gridRowsToJson (rows : List Row) : Json := arr (rows.map rowToJson)
+
+def gridDimOfJson (j : Json) : Except String Dim := do
+  match (← j.getArr?).toList with
+  | [r, c, t] => pure ⟨← r.getNat?, ← c.getNat?, ← t.getBool?⟩
+  | _ => throw "bad dim"
+
+def gridSheetToJson (s : SheetOut) : Json :=
+  Json.mkObj [("name", str s.name), ("rows", gridRowsToJson s.rows),
+              ("styled", arr (s.styled.map gridTargetToJson)), ("widened", arr (s.widened.map nat))]
+
+def gridReadToJson (r : ReadResult) : Json :=
+  Json.mkObj [
+    ("blocks", arr (r.blocks.map fun b =>
+      Json.mkObj [("sheet", str b.1), ("ty", Json.str (btString b.2.ty)), ("first", nat b.2.first),
+                  ("val", blockValToJson b.2.val)])),
+    ("ending", endingToJson r.ending)]
+
+/-- op handler of the `Grid` layer -/
+def handleGrid (op : String) (j : Json) : Option (Except String Json) :=
+  match op with
+  | "grid_layout" => some do
+    let tables ← gridTablesOfJson j "tables"
+    let sep ← getNat j "sep"
+    let naRep ← getStr j "naRep"
+    let rows := layoutSheet naRep sep tables
+    pure (Json.mkObj [("rows", gridRowsToJson rows), ("stored", gridRowsToJson (store rows)),
+                      ("dims", arr ((tables.map dimOf).map fun d => arr [nat d.numRows, nat d.numCols, Json.bool d.transposed]))])
+  | "grid_store" => some do
+    let rows ← rowsOfJson (← j.getObjVal? "rows")
+    pure (gridRowsToJson (store rows))
+  | "grid_style" => some do
+    let dims ← (← getArr j "dims").mapM gridDimOfJson
+    let sep ← getNat j "sep"
+    let n ← getNat j "nrows"
+    let w ← getNat j "width"
+    match styleTargets n w sep 0 0 dims with
+    | .ok ts => pure (Json.mkObj [("ok", arr (ts.map gridTargetToJson)), ("widened", arr ((widenedColumns dims).map nat))])
+    | .error e => pure (exc (excName e))
+  | "grid_wf" => some do
+    let t ← gridTableOfJson (← j.getObjVal? "table")
+    let naRep ← getStr j "naRep"
+    pure (Json.mkObj [("wf", Json.bool (excelWF t)), ("naRepOK", Json.bool (naRepOK naRep)),
+                      ("representable", Json.bool ((layoutTable naRep t).all (fun r => r.all cellRepresentable)))])
+  | "grid_write_read" => some do
+    let sheets ← (← getArr j "sheets").mapM fun s => do
+      let n ← getStr s "name"
+      let ts ← gridTablesOfJson s "tables"
+      pure (n, ts)
+    let sep ← getNat j "sep"
+    let naRep ← getStr j "naRep"
+    let styles ← getBool j "styles"
+    let pat ← match j.getObjValD "match" with
+      | .null => pure (none : Option (List Str))
+      | m => do let a ← m.getArr?; pure (some (← a.toList.mapM fun x => do let s ← x.getStr?; pure s.toList))
+    let ext ← extOfJson (← j.getObjVal? "ext")
+    let f ← fixerOfJson (← j.getObjVal? "fixer")
+    match writeExcel naRep sep styles sheets with
+    | .error e => pure (exc (excName e))
+    | .ok wb =>
+      let cfg : Config := ⟨.pdtable, none, .raising, ext⟩
+      let pattern : Str → Bool := fun n => match pat with | none => true | some ns => ns.contains n
+      let r := readExcel cfg pattern f (readSheets wb)
+      pure (Json.mkObj [("sheets", arr (wb.map gridSheetToJson)), ("read", gridReadToJson r)])
+  | _ => none
 
 end Drv
